@@ -66,6 +66,8 @@ SPEC = dict(
         "the state of a moved-from container is not inspected, it only has to be destructible",
         "LargeArray: every element is constructed before destroy()/~LargeArray() run, and destroy() is always followed by deallocate() or construct() (the destructor destroys again otherwise)",
         "a non-returning operation is detected by thread CPU time (2 s without completing one operation on <= a few hundred elements), never by wall-clock",
+        "element types: 8-byte tracked/POD twins everywhere; 12-, 20- and 24-byte (alignment 4 and 8) tracked/POD elements in InsertBag (block sizes 128/256/1024 bytes, optionally two bags filled alternately), gdeque, FixedSizeRing and gslist; a block of BlockSize bytes must not receive more than BlockSize/sizeof(T) elements at consecutive addresses",
+        "elements with alignment > 8 are not used: FixedSizeHeap/BumpHeap align blocks to 8 bytes only, so InsertBag<T,BlockSize>, gdeque and gslist place alignas(16)/alignas(64) elements at misaligned addresses on the fixed tree as well (allocator limitation, outside this property's statement)",
         "flat_map range constructors and insert(first,last) follow std::map: of several elements with equivalent keys the first of the input range survives (inputs of 0..200 elements with heavy key duplication are compared element by element, keys and mapped values)",
         "after 30 fatal errors of one component in one process family the remaining cases of that component are skipped and counted (cases_skipped_after_crash_cap); never reached on the fixed tree",
         "fatal errors (sanitizer report, failed Galois assert, signal) inside a case are classified in-process from the captured stderr and keyed C14:<component>:<check in flight or error class>-after-<operation>",
